@@ -342,6 +342,8 @@ from . import initial
 
 from . import wiring
 
+from . import mustcall
+
 OBLIGATIONS = [
     ('C02.O1', 'single constructors', 'SaveGameState / LoadGameState are built only in save_current_state / load_frame '
      'with frame, cell and counter agreeing; load_frame keeps its three assertions.', o1),
@@ -359,4 +361,5 @@ OBLIGATIONS = [
     ('C02.H', 'helpers the rules above rely on', 'the bodies of the helpers named by this property\'s rules compute what the rules assume (get_cell, saved_state_by_frame, cell_accessors); see rules/helpers.py', helpers.bundle('get_cell', 'saved_state_by_frame', 'cell_accessors')),
     ('C02.I', 'initial state', 'every constructor gives the fields this property\'s rules interpret (NULL_FRAME = none / nothing yet, 0 = first frame, latches open, typestate start) the value listed in tables/initial_state.json; every field compared with NULL_FRAME anywhere is listed; see rules/initial.py', initial.rule_for('C02')),
     ('C02.W', 'configuration wiring', 'no crossed wires at call sites, in struct literals and in plain getters (last_saved_frame / last_confirmed_frame / current_frame are three same-typed fields with three getters); see rules/wiring.py', wiring.rule),
+    ('C02.M', 'must-call floor', 'the calls listed for this property in tables/must_call.json are made on every path from the entry of their function to a normal return (interprocedural must-call): a new early return, fast path or extra condition in front of one of them is reported; see rules/mustcall.py', mustcall.rule_for('C02')),
 ]
